@@ -991,6 +991,10 @@ func ParseCIDR(cidr string) ([]*net.IPNet, error) {
 		return nil, fmt.Errorf("invalid IP range %q: invalid end IP %q", cidr, fs[1])
 	}
 
+	if (start.To4() == nil) != (end.To4() == nil) {
+		return nil, fmt.Errorf("invalid IP range %q: start IP %q and end IP %q are not of the same IP family", cidr, start, end)
+	}
+
 	if bytes.Compare(start, end) > 0 {
 		return nil, fmt.Errorf("invalid IP range %q: start IP %q is after the end IP %q", cidr, start, end)
 	}
@@ -1007,7 +1011,10 @@ func ParseCIDR(cidr string) ([]*net.IPNet, error) {
 }
 
 func cidrsOverlap(a, b *net.IPNet) bool {
-	return cidrContainsCIDR(a, b) || cidrContainsCIDR(b, a)
+	// Two CIDRs overlap if and only if one of them contains the network address of
+	// the other. net.IPNet.Contains normalizes IPv4-mapped IPv6 notation, which a
+	// comparison of the raw mask lengths does not.
+	return a.Contains(b.IP) || b.Contains(a.IP) || cidrContainsCIDR(a, b) || cidrContainsCIDR(b, a)
 }
 
 func cidrContainsCIDR(outer, inner *net.IPNet) bool {
